@@ -411,4 +411,64 @@ theorem timedTrace_success_mem (clk : Clock) (i n : Nat) :
   | zero => simp [timedTrace, lastSuccess]
   | succ n ih => simp [timedTrace, ih]
 
+/-! ### unfoldings of the top-level functions -/
+
+/-- unfolding of a successful nanosleep: valid request, and the loop broke at the first reading
+    `1 + n` that is `gt` the computed wake-up time (helper for the theorems below) -/
+theorem nanosleep_ok (req : Ts) (clk : Clock) (fuel : Nat) (tr : List Ev) :
+    nanosleep req clk fuel = some (Rc.ok, tr) ↔
+      (0 ≤ req.sec ∧ Norm req) ∧ ∃ n, n < fuel ∧ gt (clk (1 + n)) (add (clk 0) req) = true ∧
+        (∀ j, j < n → gt (clk (1 + j)) (add (clk 0) req) = false) ∧
+        tr = Ev.clock (clk 0) :: sleepTrace clk 1 n := by
+  unfold nanosleep nanosleepWith Norm NS
+  by_cases h1 : req.sec < 0
+  · simp [h1]; omega
+  · by_cases h2 : req.nsec < 0
+    · simp [h1, h2]; omega
+    · by_cases h3 : req.nsec > 999999999
+      · simp [h1, h2, h3]; omega
+      · simp only [h1, h2, h3, if_false, Option.map_eq_some_iff, Prod.mk.injEq, true_and]
+        constructor
+        · rintro ⟨tr', h, rfl⟩
+          obtain ⟨n, hn, hg, hall, rfl⟩ := (sleepLoop_some _ clk fuel 1 tr').mp h
+          exact ⟨by omega, n, hn, hg, hall, rfl⟩
+        · rintro ⟨_, n, hn, hg, hall, rfl⟩
+          exact ⟨_, (sleepLoop_some _ clk fuel 1 _).mpr ⟨n, hn, hg, hall, rfl⟩, rfl⟩
+
+/-- exact unfolding of a finished timed operation (helper) -/
+theorem timed_some (code : Rc) (abs : Ts) (clk : Clock) (out : Nat → Bool) (fuel : Nat) (r : Rc) (tr : List Ev) :
+    timed code abs clk out fuel = some (r, tr) ↔
+      (out 0 = true ∧ r = Rc.ok ∧ tr = [Ev.attempt true]) ∨
+      (out 0 = false ∧ ∃ n, n < fuel ∧ (∀ j, j < n → gt (clk j) abs = false ∧ out (j + 1) = false) ∧
+        ((gt (clk n) abs = true ∧ r = code ∧ tr = Ev.attempt false :: timedTrace clk lastTimeout 0 n) ∨
+         (gt (clk n) abs = false ∧ out (n + 1) = true ∧ r = Rc.ok ∧
+            tr = Ev.attempt false :: timedTrace clk lastSuccess 0 n))) := by
+  unfold timed
+  by_cases h0 : out 0 = true
+  · simp only [h0, if_true, Option.some.injEq, Prod.mk.injEq, true_and, Bool.true_eq_false, false_and, or_false]
+    constructor
+    · rintro ⟨rfl, rfl⟩; exact ⟨rfl, rfl⟩
+    · rintro ⟨rfl, rfl⟩; exact ⟨rfl, rfl⟩
+  · have h0' : out 0 = false := by simpa using h0
+    simp only [h0', Bool.false_eq_true, if_false, false_and, false_or, true_and, Option.map_eq_some_iff]
+    constructor
+    · rintro ⟨⟨r', tr'⟩, h, heq⟩
+      simp only [Prod.mk.injEq] at heq
+      obtain ⟨rfl, rfl⟩ := heq
+      obtain ⟨n, hn, hall, hcase⟩ := (timedLoop_some code abs clk out fuel 0 r' tr').mp h
+      simp only [Nat.zero_add] at hall hcase
+      refine ⟨n, hn, hall, ?_⟩
+      rcases hcase with ⟨a, b, c⟩ | ⟨a, b, c, d⟩
+      · exact Or.inl ⟨a, b, by rw [c]⟩
+      · exact Or.inr ⟨a, b, c, by rw [d]⟩
+    · rintro ⟨n, hn, hall, hcase⟩
+      rcases hcase with ⟨a, b, c⟩ | ⟨a, b, c, d⟩
+      · refine ⟨(r, timedTrace clk lastTimeout 0 n), (timedLoop_some code abs clk out fuel 0 _ _).mpr ⟨n, hn, ?_, Or.inl ⟨?_, b, rfl⟩⟩, by simp [c]⟩
+        · simpa using hall
+        · simpa using a
+      · refine ⟨(r, timedTrace clk lastSuccess 0 n), (timedLoop_some code abs clk out fuel 0 _ _).mpr ⟨n, hn, ?_, Or.inr ⟨?_, ?_, c, rfl⟩⟩, by simp [d]⟩
+        · simpa using hall
+        · simpa using a
+        · simpa using b
+
 end MythVerif.Time
